@@ -178,9 +178,6 @@ def check_fragments(acc, opens, case, sources, frags, refs, printer_name):
         # source file
         if effective != sources[fi][0]:
             sig = None
-            if source is None and text in ('{', '}', ';') and not any(
-                    g.source is not None for j, g in frags[:idx] if j == fi):
-                sig = 'c08.leading_layout_fragment_source'
             acc.fail(sig, case, {'bucket': 'wrong_source', 'fragment': list(f)[:4] + [repr(source)],
                                  'effective_source': repr(effective), 'expected': sources[fi][0]}, opens)
             if sig is None or sig not in opens:
@@ -188,23 +185,6 @@ def check_fragments(acc, opens, case, sources, frags, refs, printer_name):
             # listed finding: counted; keep judging the rest of the stream as if the file were right
             effective = sources[fi][0]
         off = maps[fi].offset(line, col)
-        if nested and source is None and text in ('{', '}', ';'):
-            # layout-handler fragments carry no source (listed finding F-C08-1): after a nested file they
-            # inherit the nested file's name although they belong to the enclosing one.  If the position
-            # designates this very token in another of our files, count the finding and go on.
-            def on_token(j):
-                o = maps[j].offset(line, col)
-                return o is not None and o in tok_at[j] and tok_at[j][o].text == text
-            if not on_token(fi):
-                others = [j for j in range(len(sources)) if j != fi and on_token(j)]
-                if others:
-                    acc.fail('c08.leading_layout_fragment_source', case,
-                             {'bucket': 'wrong_source_nested', 'fragment': list(f)[:4], 'inherited': sources[fi][0],
-                              'belongs_to': sources[others[0]][0]}, opens)
-                    if 'c08.leading_layout_fragment_source' not in opens:
-                        return None
-                    fi = others[0]
-                    off = maps[fi].offset(line, col)
         if off is None:
             acc.fail(None, case, {'bucket': 'no_such_position', 'fragment': [text, line, col, name]}, opens)
             return None
